@@ -254,6 +254,36 @@ package stree
 //@   at exit: ghost t.elems = setdel(t.elems, rank(t.compare, key))
 //@   call rewrite#1: cmp = t.compare
 //@
+// Clone. node.clone copies the subtree into fresh nodes with the same keys, counts and representatives; nothing that
+// existed before is touched, so the original and the copy share no node: a later change to either (whose contracts
+// confine their writes to the nodes of the tree they are given) cannot show in the other.
+//@ func (*node).clone
+//@   ghost cmp func(T, T) int
+//@   requires [C01] treeOK(n, cmp)
+//@   ensures  [C01] nil: (n == nil) == (result == nil)
+//@   ensures  [C01] shape: treeOK(result, cmp)
+//@   ensures  [C01] same: n != nil ==> result.X == n.X && result.cnt == n.cnt && (forall k int :: {k in result.keys} k in result.keys <==> k in n.keys) && (forall k int :: {result.rep[k]} k in n.keys ==> result.rep[k] == n.rep[k])
+//@   ensures  [C01] fresh: forall y ref :: {inD(result, y)} inD(result, y) ==> !old(allocated(y))
+//@   ensures  [C01] frame: forall y *node[T] :: {y.left} {y.right} {y.X} {y.keys} {y.desc} old(allocated(y)) ==> sameNode(y)
+//@   decreases cntOf(n)
+//@   call clone#1: cmp = cmp
+//@   call clone#2: cmp = cmp
+//@   at return 2: ghost result.keys = n.keys
+//@   at return 2: ghost result.rep = n.rep
+//@   at return 2: ghost result.cnt = n.cnt
+//@   at return 2: ghost result.desc = lambda y ref :: y == result || inD(result.left, y) || inD(result.right, y)
+//@
+//@ func (*Tree).Clone
+//@   requires [C01] treeInv(t) && sizeInv(t)
+//@   ensures  [C01] inv: result != nil && fresh(result) && treeInv(result) && sizeInv(result)
+//@   ensures  [C01] same: result.compare == t.compare && result.size == t.size && (forall k int :: {k in result.elems} k in result.elems <==> k in t.elems) && (forall k int :: {result.vals[k]} k in t.elems ==> result.vals[k] == t.vals[k])
+//@   ensures  [C01] apart: forall y ref :: {inD(result.root, y)} inD(result.root, y) ==> !old(allocated(y))
+//@   ensures  [C01] frame: forall y *node[T] :: {y.left} {y.right} {y.X} {y.keys} {y.desc} old(allocated(y)) ==> sameNode(y)
+//@   ensures  [C01] original: treeInv(t) && sizeInv(t) && t.root == old(t.root) && t.elems == old(t.elems) && t.vals == old(t.vals)
+//@   call clone#1: cmp = t.compare
+//@   at exit: ghost result.elems = t.elems
+//@   at exit: ghost result.vals = t.vals
+//@
 // C03. A cursor is a path from a root down to its current node. pathOK is purely structural: every element is a
 // live node and each one is the left or right child of its predecessor (written over pairs (a, b = a+1), so that no
 // trigger term occurs in its own body). The contracts below decide the structural half of C03 (every move stays on
